@@ -15,6 +15,9 @@ use vrp_core::models::problem::{
 };
 use vrp_core::models::solution::Route;
 use vrp_core::models::{Problem, ProblemBuilder};
+use vrp_cli::extensions::analyze::{get_dbscan_clusters, get_k_medoids_clusters};
+use vrp_pragmatic::format::problem::{deserialize_matrix, deserialize_problem, PragmaticProblem};
+use vrp_pragmatic::format::{CoordIndexExtraProperty, Location as ApiLocation};
 use std::panic::{catch_unwind, AssertUnwindSafe};
 use std::sync::atomic::{AtomicUsize, Ordering};
 use std::sync::mpsc::channel;
@@ -202,9 +205,131 @@ fn with_pool<R: Send>(threads: usize, f: impl FnOnce() -> R + Send) -> R {
     }
 }
 
+static CLUSTER_TIMEOUTS: AtomicUsize = AtomicUsize::new(0);
+
+/// Every clustering call runs on its own thread under a watchdog: a case that does not return within the limit is reported as
+/// {"timeout": true} (oracle class `clustering-does-not-terminate`), the thread is abandoned (it cannot be killed); after a few
+/// of them further clustering cases are skipped because the abandoned threads keep spinning.
 pub fn run_case(case: &Value) -> Value {
+    let op = case["op"].as_str().unwrap().to_string();
+    if op == "lkh" {
+        return run_inner(case); // has its own watchdog (shorter limit)
+    }
+    if CLUSTER_TIMEOUTS.load(Ordering::SeqCst) >= 4 {
+        return json!({ "skipped": true });
+    }
+    let owned = case.clone();
+    let (tx, rx) = channel();
+    std::thread::spawn(move || {
+        let r = catch_unwind(AssertUnwindSafe(|| run_inner(&owned)));
+        let _ = tx.send(r.map_err(|e| {
+            if let Some(s) = e.downcast_ref::<&str>() {
+                s.to_string()
+            } else if let Some(s) = e.downcast_ref::<String>() {
+                s.clone()
+            } else {
+                "panic".to_string()
+            }
+        }));
+    });
+    // 20 s for the first case that hangs in this process, 5 s for the next ones (all cases normally finish within milliseconds)
+    let default_limit = if CLUSTER_TIMEOUTS.load(Ordering::SeqCst) == 0 { 20000 } else { 5000 };
+    let limit = case.get("timeout_ms").and_then(|v| v.as_u64()).unwrap_or(default_limit);
+    match rx.recv_timeout(Duration::from_millis(limit)) {
+        Ok(Ok(v)) => v,
+        Ok(Err(msg)) => panic!("{}", msg),
+        Err(_) => {
+            CLUSTER_TIMEOUTS.fetch_add(1, Ordering::SeqCst);
+            json!({ "timeout": true })
+        }
+    }
+}
+
+fn run_inner(case: &Value) -> Value {
     let op = case["op"].as_str().unwrap();
     match op {
+        "analyze" => {
+            // the path of `vrp-cli analyze dbscan|kmedoids pragmatic <problem>` (the repository's commands::analyze tests):
+            // a pragmatic document (geo coordinates -> approximated float distances, or indices + matrix) read by the real reader
+            let problem_text = case["problem"].to_string();
+            let matrices: Vec<String> =
+                case["matrices"].as_array().map(|ms| ms.iter().map(|m| m.to_string()).collect()).unwrap_or_default();
+            // as vrp-cli commands::get_core_problem: no matrix => Option::None => distances approximated from the coordinates
+            let api_problem = match deserialize_problem(std::io::BufReader::new(problem_text.as_bytes())) {
+                Ok(p) => p,
+                Err(errs) => return json!({ "read_error": format!("{}", errs) }),
+            };
+            let api_matrices = if matrices.is_empty() {
+                None
+            } else {
+                match matrices.iter().map(|m| deserialize_matrix(std::io::BufReader::new(m.as_bytes()))).collect::<Result<Vec<_>, _>>() {
+                    Ok(ms) => Some(ms),
+                    Err(errs) => return json!({ "read_error": format!("{}", errs) }),
+                }
+            };
+            let problem = match (api_problem, api_matrices).read_pragmatic() {
+                Ok(p) => p,
+                Err(errs) => return json!({ "read_error": format!("{}", errs) }),
+            };
+            let min_points = if case["minp"].is_null() { None } else { Some(usize_of(&case["minp"])) };
+            let epsilon = if case["eps"].is_null() { None } else { Some(case["eps"].as_f64().expect("eps")) };
+            let k = usize_of(&case["k"]);
+            let coord_index = problem.extras.get_coord_index().expect("coord index");
+            let loc_index = |l: &ApiLocation| coord_index.get_by_loc(l).map(|i| json!(i)).unwrap_or(Value::Null);
+            let dbscan = match get_dbscan_clusters(&problem, min_points, epsilon) {
+                Ok(items) => json!(items.iter().map(|(id, l, c)| json!([id, loc_index(l), c])).collect::<Vec<_>>()),
+                Err(e) => json!({ "err": e.to_string() }),
+            };
+            let kmedoids = match with_pool(1, || get_k_medoids_clusters(&problem, k)) {
+                Ok(items) => json!(items.iter().map(|(id, l, c)| json!([id, loc_index(l), c])).collect::<Vec<_>>()),
+                Err(e) => json!({ "err": e.to_string() }),
+            };
+            // what the k-medoids call measured: distance_approx(first profile, from, to) for all matrix locations (floats travel
+            // as their bit patterns: the oracle only COMPARES them)
+            let size = problem.transport.size();
+            let profile = problem.fleet.profiles.first().cloned().unwrap_or_default();
+            let dist: Vec<Vec<Value>> = (0..size)
+                .map(|a| (0..size).map(|b| bits_of(problem.transport.distance_approx(&profile, a, b))).collect())
+                .collect();
+            let job_ids: Vec<String> =
+                problem.jobs.all().iter().map(|j| j.dimens().get_job_id().cloned().unwrap_or_default()).collect();
+            // the neighbourhood rows the wrapper is fed with, per fleet profile and job (in jobs.all() order): [neighbour, cost bits]
+            let pos: HashMap<Job, usize> = problem.jobs.all().iter().enumerate().map(|(i, j)| (j.clone(), i)).collect();
+            let rows: Vec<Value> = problem
+                .fleet
+                .profiles
+                .iter()
+                .map(|profile| {
+                    Value::Array(
+                        problem
+                            .jobs
+                            .all()
+                            .iter()
+                            .map(|job| {
+                                Value::Array(
+                                    problem
+                                        .jobs
+                                        .neighbors(profile, job, Timestamp::default())
+                                        .map(|(j, c)| json!([pos[j], bits_of(c)]))
+                                        .collect(),
+                                )
+                            })
+                            .collect(),
+                    )
+                })
+                .collect();
+            let solver: Vec<Vec<String>> = problem
+                .jobs
+                .clusters()
+                .iter()
+                .map(|c| {
+                    let mut ids: Vec<String> = c.iter().map(|j| j.dimens().get_job_id().cloned().unwrap_or_default()).collect();
+                    ids.sort();
+                    ids
+                })
+                .collect();
+            json!({ "dbscan": dbscan, "kmedoids": kmedoids, "size": size, "dist": dist, "jobs": job_ids, "rows": rows, "solver_clusters": solver })
+        }
         "dbscan" => {
             let n = usize_of(&case["n"]);
             let universe: Vec<usize> = (0..n).collect();
